@@ -136,7 +136,10 @@ class HashTable:
         return f"{self.__class__.__name__}({self._keys.ravel().tolist()}, {v})"
 
     def _get_mod(self, keys):
-        return self.dtype(2 * keys.size - 1)  # TODO: make prime
+        mod = 2 * keys.size - 1  # TODO: make prime
+        if keys.dtype.kind in "iu":
+            mod = min(mod, int(np.iinfo(keys.dtype).max))  # the modulus is applied in the key dtype
+        return self.dtype(mod)
 
     def _get_hash(self, keys):
         return keys % self._mod
